@@ -353,3 +353,38 @@ def opterm_value(terms, model, val, tau, forbidden=None):
 
         rec(0, dict(tau))
     return out
+
+
+class GenOp:
+    """
+    D = sum_{p1<p2<.., r1<r2<..} d[p1 p2 ..| r1 r2 ..] a+_p1 a+_p2 .. a_r(na) .. a_r1
+    (= 1/(nc! na!) times the unrestricted sum for an antisymmetric d).
+    coef(P, R) -> SP
+    """
+
+    def __init__(self, n_orb, nc, na, coef):
+        self.n, self.nc, self.na, self.coef = n_orb, nc, na, coef
+
+    def apply(self, vec: Vec) -> Vec:
+        out = Vec()
+        n = self.n
+        for det, c in vec.c.items():
+            occ = [p for p in range(n) if det >> p & 1]
+            for R in combinations(occ, self.na):
+                d1, sg = det, 1
+                for r in R:                      # a_r1 acts first
+                    x = apply_op(ANN, r, d1)
+                    sg *= x[0]
+                    d1 = x[1]
+                free = [p for p in range(n) if not d1 >> p & 1]
+                for P in combinations(free, self.nc):
+                    v = self.coef(P, R)
+                    if v.is_zero():
+                        continue
+                    d2, sg2 = d1, sg
+                    for p in reversed(P):        # a+_p(nc) acts first, a+_p1 last
+                        x = apply_op(CRE, p, d2)
+                        sg2 *= x[0]
+                        d2 = x[1]
+                    out.add(d2, c * v * sg2)
+        return out
